@@ -175,7 +175,7 @@ func mutateGrammar(r *rng, src []byte) []byte {
 		case 8: // replace a literal quote style
 			s = strings.Replace(s, "\"", "`", 1)
 		case 9, 10: // replace a terminal by a lexically tricky one
-			toks := []string{`[\p{L]`, `[\p{L} ]`, `[\pL\pN]`, `[\p{Latin}a-z]i`, `[\p{Nope}]`, `[\pX]`, `[^]`, `[]`, `[\]]`, `[\-a]`, `[a\-]`, `[z-a]`, `[a-]`, `[\x41-\x5a]`, `[\u00e9]`, `[\U0001F600]`, `[\101]`, `'\''`, `'\"'`, "\"\\u00e9\"", "\"\\xff\"", "\"\\uD800\"", "\"\\q\"", "`raw\\n`", "`raw`i", `""`, `''i`, `"a"i`, `.`, `'\777'`, `'\08'`, `[\08]`, `[\p{`, `[\p`, `"\u12"`}
+			toks := []string{`[\p{L]`, `[\p{L} ]`, `[\pL\pN]`, `[\p{Latin}a-z]i`, `[\p{Nope}]`, `[\pX]`, `[^]`, `[]`, `[\]]`, `[\-a]`, `[a\-]`, `[z-a]`, `[a-]`, `[\x41-\x5a]`, `[\u00e9]`, `[\U0001F600]`, `[\101]`, `'\''`, `'\"'`, "\"\\u00e9\"", "\"\\xff\"", "\"\\uD800\"", "\"\\q\"", "`raw\\n`", "`raw`i", `""`, `''i`, `"a"i`, `.`, `'\777'`, `'\08'`, `[\08]`, `[\p{`, `[\p`, `"\u12"`, `[cf\u212a]i`, `[\u0130]i`, `[\u017f]i`, `"\u212a"i`, `[\u212a-\u212b]i`, `[\ufffd]`, `[\U0010ffff]`, `[\x00]`, `[\x7f-\x80]`}
 			i := strings.IndexAny(s, "'\"[")
 			if i < 0 || r.chance(1, 3) {
 				i = r.intn(len(s) + 1)
